@@ -1141,4 +1141,258 @@ theorem tieFirst_legal : LegalTie tieFirst := by
     simp only [List.getElem?_idxOf hmem]
     exact List.all_eq_true.mpr (fun u hu => by simpa using hle u hu)
 
+
+/-! ### independence of the local pair order (`spawn_copy` vs `downsample_pairs_to_other`) -/
+
+theorem sum_perm {l l' : List Int} (h : l.Perm l') : l.sum = l'.sum := by
+  induction h with
+  | nil => rfl
+  | cons x _ ih => simp only [List.sum_cons, ih]
+  | swap x y l => simp only [List.sum_cons]; omega
+  | trans _ _ ih1 ih2 => omega
+
+/-- two states that differ only in the order of the slots and in the order in
+which the same genes were chosen -/
+structure Sim (st st' : St) : Prop where
+  slots : st'.slots.Perm st.slots
+  util : st'.util = st.util
+  chosen : st'.chosen.Perm st.chosen
+
+theorem Sim.refl (st : St) : Sim st st := ⟨List.Perm.refl _, rfl, List.Perm.refl _⟩
+
+theorem Sim.trans {a b c : St} (h1 : Sim a b) (h2 : Sim b c) : Sim a c :=
+  ⟨h2.slots.trans h1.slots, h2.util.trans h1.util, h2.chosen.trans h1.chosen⟩
+
+theorem decrAll_perm {n : Nat} {l l' : List Slot} (h : l'.Perm l) (g : Nat) :
+    decrAll n l' g = decrAll n l g := sum_perm (h.map _)
+
+theorem Sim.update {n : Nat} {st st' : St} (h : Sim st st') :
+    Sim (updateBeenFilled n st) (updateBeenFilled n st') := by
+  refine ⟨h.slots.map _, ?_, h.chosen⟩
+  simp only [updateBeenFilled, h.util]
+  apply List.ext_getElem? 
+  intro i
+  simp only [List.getElem?_mapIdx, decrAll_perm h.slots]
+
+/-- the total form of the guarded `_choose_one_gene` of the desperate loop -/
+def chooseIfNew (st : St) (g : Nat) : St :=
+  if st.chosen.contains g then st
+  else { chosen := st.chosen ++ [g], util := st.util.set g (-1),
+         slots := st.slots.map (Slot.bump g) }
+
+theorem Sim.stepNew {st st' : St} (h : Sim st st') (g : Nat) :
+    Sim (chooseIfNew st g) (chooseIfNew st' g) := by
+  unfold Selection.chooseIfNew
+  have hc : st'.chosen.contains g = st.chosen.contains g := by
+    rw [Bool.eq_iff_iff]; simp [h.chosen.mem_iff]
+  rw [hc]
+  split
+  · exact h
+  · exact ⟨h.slots.map _, by simp only [h.util], h.chosen.append_right _⟩
+
+theorem Sim.foldNew {gs : List Nat} : ∀ {st st' : St}, Sim st st' →
+    Sim (gs.foldl chooseIfNew st) (gs.foldl chooseIfNew st') := by
+  induction gs with
+  | nil => intro st st' h; exact h
+  | cons g gs ih => intro st st' h; exact ih (h.stepNew g)
+
+theorem bump_eq (g : Nat) (s : Slot) : s.bump g =
+    { s with cUp := s.cUp + (if s.up.contains g then 1 else 0),
+             cDown := s.cDown + (if !s.up.contains g && s.down.contains g then 1 else 0),
+             agg := s.agg + (if s.up.contains g || s.down.contains g then 1 else 0) } := by
+  unfold Slot.bump
+  cases h1 : s.up.contains g <;> cases h2 : s.down.contains g <;> simp
+
+theorem bump_comm (a b : Nat) (s : Slot) : (s.bump a).bump b = (s.bump b).bump a := by
+  rw [bump_eq b (s.bump a), bump_eq a (s.bump b), bump_eq a s, bump_eq b s]
+  simp only [Slot.mk.injEq, true_and, and_true]
+  refine ⟨?_, ?_, ?_⟩ <;> omega
+
+theorem chooseIfNew_swap (st : St) (a b : Nat) :
+    Sim (chooseIfNew (chooseIfNew st a) b) (chooseIfNew (chooseIfNew st b) a) := by
+  by_cases hab : a = b
+  · subst hab; exact Sim.refl _
+  have hba : ¬ b = a := fun h => hab h.symm
+  by_cases ha : a ∈ st.chosen <;> by_cases hb : b ∈ st.chosen
+  · simp only [chooseIfNew, List.contains_eq_mem, ha, hb, decide_true, if_true]
+    exact Sim.refl _
+  · simp only [chooseIfNew, List.contains_eq_mem, ha, hb, decide_true, decide_false, if_true,
+      Bool.false_eq_true, if_false, List.mem_append, List.mem_singleton, true_or]
+    exact Sim.refl _
+  · simp only [chooseIfNew, List.contains_eq_mem, ha, hb, decide_true, decide_false, if_true,
+      Bool.false_eq_true, if_false, List.mem_append, List.mem_singleton, true_or]
+    exact Sim.refl _
+  · simp only [chooseIfNew, List.contains_eq_mem, ha, hb, hab, hba, decide_false,
+      Bool.false_eq_true, if_false, List.mem_append, List.mem_singleton, or_self]
+    refine ⟨?_, ?_, ?_⟩
+    · simp only [List.map_map]
+      apply List.Perm.of_eq
+      apply List.map_congr_left
+      intro s _
+      exact bump_comm b a s
+    · exact List.set_comm _ _ hba
+    · simp only [List.append_assoc, List.singleton_append]
+      exact List.Perm.append_left _ (List.Perm.swap _ _ _)
+
+theorem Sim.foldNew_perm {gs gs' : List Nat} (h : gs.Perm gs') :
+    ∀ st : St, Sim (gs.foldl chooseIfNew st) (gs'.foldl chooseIfNew st) := by
+  induction h with
+  | nil => intro st; exact Sim.refl _
+  | cons x _ ih => intro st; exact ih _
+  | swap x y l =>
+    intro st
+    simp only [List.foldl_cons]
+    exact Sim.foldNew (chooseIfNew_swap st y x)
+  | trans _ _ ih1 ih2 => intro st; exact (ih1 st).trans (ih2 st)
+
+theorem desperateGenes_eq_foldl : ∀ (gs : List Nat) (st : St),
+    desperateGenes gs st = .ok (gs.foldl chooseIfNew st) := by
+  intro gs
+  induction gs with
+  | nil => intro st; rfl
+  | cons g gs ih =>
+    intro st
+    simp only [desperateGenes, List.foldl_cons, chooseIfNew, chooseGene]
+    split
+    · exact ih st
+    · exact ih _
+
+/-- the genes the desperate phase walks through, in order -/
+def desperateList (n nG : Nat) (ss : List Slot) : List Nat :=
+  (ss.filter (Slot.desperate n)).flatMap (Slot.validGenes nG)
+
+theorem desperateSlots_eq_foldl {n nG : Nat} : ∀ (ss : List Slot) (st : St),
+    (∀ s ∈ ss, SlotWF nG s) →
+    desperateSlots n nG ss st = .ok ((desperateList n nG ss).foldl chooseIfNew st) := by
+  intro ss
+  induction ss with
+  | nil => intro st _; rfl
+  | cons s ss ih =>
+    intro st hw
+    have hw' : ∀ t ∈ ss, SlotWF nG t := fun t ht => hw t (by simp [ht])
+    by_cases hd : s.desperate n = true
+    · have hno : (s.up.any fun g => s.down.contains g) = false := by
+        rw [Bool.eq_false_iff]
+        intro hov
+        simp only [List.any_eq_true, List.contains_eq_mem, decide_eq_true_eq] at hov
+        obtain ⟨g, hgu, hgd⟩ := hov
+        exact absurd hgd ((hw s (by simp)).disj g hgu)
+      have hl : desperateList n nG (s :: ss) = s.validGenes nG ++ desperateList n nG ss := by
+        simp [desperateList, List.filter_cons, hd]
+      rw [hl, List.foldl_append]
+      simp only [desperateSlots, hd, if_true, hno, Bool.false_eq_true, if_false,
+        desperateGenes_eq_foldl]
+      exact ih _ hw'
+    · have hl : desperateList n nG (s :: ss) = desperateList n nG ss := by
+        simp [desperateList, List.filter_cons, hd]
+      rw [hl]
+      simp only [desperateSlots, hd, if_false]
+      exact ih st hw'
+
+theorem desperateList_perm {n nG : Nat} {ss ss' : List Slot} (h : ss'.Perm ss) :
+    (desperateList n nG ss').Perm (desperateList n nG ss) :=
+  (h.filter _).flatMap_right _
+
+theorem allFilled_perm {l l' : List Slot} (h : l'.Perm l) : allFilled l' = allFilled l := by
+  rw [Bool.eq_iff_iff]
+  simp only [allFilled, List.all_eq_true]
+  exact ⟨fun hh s hs => hh s (h.mem_iff.mpr hs), fun hh s hs => hh s (h.mem_iff.mp hs)⟩
+
+theorem Sim.choose {st st' s1 : St} {g : Nat} (h : Sim st st')
+    (hc : Selection.chooseGene g st = .ok s1) :
+    ∃ s1', Selection.chooseGene g st' = .ok s1' ∧ Sim s1 s1' := by
+  obtain ⟨hg, rfl⟩ := chooseGene_ok hc
+  have hg' : g ∉ st'.chosen := fun hh => hg (h.chosen.mem_iff.mp hh)
+  refine ⟨{ chosen := st'.chosen ++ [g], util := st'.util.set g (-1),
+            slots := st'.slots.map (Slot.bump g) }, ?_, ?_⟩
+  · simp [Selection.chooseGene, hg']
+  · exact ⟨h.slots.map _, by simp only [h.util], h.chosen.append_right _⟩
+
+/-- the greedy loop does not depend on the slot order when the tie-breaking
+policy looks at the utility array only (as `np.argsort` does) -/
+theorem loop_succ (n : Nat) (tie : Tie) (fuel : Nat) (st : St) :
+    loop n tie (fuel + 1) st =
+      match maxUtil (updateBeenFilled n st).util with
+      | none => .error .emptyMax
+      | some m =>
+        if m ≤ 0 then .ok (updateBeenFilled n st)
+        else if allFilled (updateBeenFilled n st).slots then .ok (updateBeenFilled n st)
+        else if !legalPick (updateBeenFilled n st).util
+            (tie (updateBeenFilled n st).chosen (updateBeenFilled n st).util) then .error .illegalPick
+        else match chooseGene (tie (updateBeenFilled n st).chosen (updateBeenFilled n st).util)
+            (updateBeenFilled n st) with
+          | .error e => .error e
+          | .ok st' => loop n tie fuel st' := rfl
+
+theorem Sim.loopOk {n : Nat} {t : List Int → Nat} : ∀ (fuel : Nat) {st st' r : St}, Sim st st' →
+    loop n (fun _ u => t u) fuel st = .ok r →
+    ∃ r', loop n (fun _ u => t u) fuel st' = .ok r' ∧ Sim r r' := by
+  intro fuel
+  induction fuel with
+  | zero => intro st st' r _ he; simp [Selection.loop] at he
+  | succ fuel ih =>
+    intro st st' r h he
+    have hu := h.update (n := n)
+    rw [loop_succ] at he ⊢
+    rw [hu.util, allFilled_perm hu.slots]
+    cases hm : maxUtil (updateBeenFilled n st).util with
+    | none => rw [hm] at he; cases he
+    | some m =>
+      rw [hm] at he
+      simp only at he ⊢
+      by_cases hle : m ≤ 0
+      · simp only [hle, if_true, Except.ok.injEq] at he ⊢
+        subst he
+        exact ⟨_, rfl, hu⟩
+      · simp only [hle, if_false] at he ⊢
+        by_cases hall : allFilled (updateBeenFilled n st).slots = true
+        · simp only [hall, if_true, Except.ok.injEq] at he ⊢
+          subst he
+          exact ⟨_, rfl, hu⟩
+        · simp only [hall, Bool.false_eq_true, if_false] at he ⊢
+          cases hl : legalPick (updateBeenFilled n st).util (t (updateBeenFilled n st).util) with
+          | false => rw [hl] at he; simp at he
+          | true =>
+            rw [hl] at he
+            simp only [Bool.not_true, Bool.false_eq_true, if_false] at he ⊢
+            cases hc : chooseGene (t (updateBeenFilled n st).util) (updateBeenFilled n st) with
+            | error e => rw [hc] at he; cases he
+            | ok s1 =>
+              rw [hc] at he
+              obtain ⟨s1', hc', hs1⟩ := hu.choose hc
+              rw [hc']
+              exact ih hs1 he
+
+theorem initUtil_perm {l l' : List Slot} (h : l'.Perm l) (g : Nat) :
+    initUtil l' g = initUtil l g := sum_perm (h.map _)
+
+/-- `_run_selection` on a permuted pair list reaches a state that differs only
+in the slot order and the order of the chosen genes -/
+theorem runState_perm {nG n : Nat} {ps ps' : List Pair} {t : List Int → Nat} {st st' : St}
+    (hp : ∀ p ∈ ps, PairWF nG p) (hperm : ps'.Perm ps)
+    (h : runState nG ps n (fun _ u => t u) = .ok st)
+    (h' : runState nG ps' n (fun _ u => t u) = .ok st') : Sim st st' := by
+  have hp' : ∀ p ∈ ps', PairWF nG p := fun p hpm => hp p (hperm.mem_iff.mp hpm)
+  have h0 : Sim (initState nG ps) (initState nG ps') := by
+    refine ⟨hperm.map _, ?_, List.Perm.refl _⟩
+    simp only [initState]
+    apply List.map_congr_left
+    intro g _
+    exact initUtil_perm (hperm.map _) g
+  have h1 := h0.update (n := n)
+  unfold runState preState at h h'
+  rw [desperateSlots_eq_foldl _ _ ((Inv.init (n := n) hp).update).wf] at h
+  rw [desperateSlots_eq_foldl _ _ ((Inv.init (n := n) hp').update).wf] at h'
+  simp only at h h'
+  have h2 : Sim
+      ((desperateList n nG (updateBeenFilled n (initState nG ps)).slots).foldl chooseIfNew
+        (updateBeenFilled n (initState nG ps)))
+      ((desperateList n nG (updateBeenFilled n (initState nG ps')).slots).foldl chooseIfNew
+        (updateBeenFilled n (initState nG ps'))) :=
+    (Sim.foldNew h1).trans (Sim.foldNew_perm (desperateList_perm h1.slots).symm _)
+  obtain ⟨r', hr', hs⟩ := Sim.loopOk (nG + 1) h2 h
+  rw [hr'] at h'
+  cases h'
+  exact hs
+
 end CTM.Selection
